@@ -127,5 +127,11 @@ def hang_site(ctx, src, target, extra, seconds=3):
     e["ASAN_OPTIONS"] = e["ASAN_OPTIONS"].replace("handle_abort=0", "handle_abort=1")
     p = run(["timeout", "-s", "ABRT", str(seconds), exe, "-t", target] + list(extra), input=src, timeout=seconds + 20, env=e,
             stdout=subprocess.DEVNULL)
-    fr = _first_repo_frame(p.err or b"")
-    return fr or "?"
+    # the innermost frames are allocation/emission helpers that any busy loop passes through: name the loop's owner
+    helpers = {"xmalloc", "xreallocarray", "reallocarray", "arrayadd", "arrayaddptr", "arrayaddbuf", "mkinst", "funcinst", "mkintconst", "mkblock",
+               "functemp", "bufadd", "nextchar"}
+    for m in _FRAME.finditer(p.err or b""):
+        fn, fl = m.group(1).decode(), m.group(2).decode()
+        if os.path.exists(os.path.join(build.REPO, fl)) and fn not in helpers:
+            return "%s@%s" % (fn, fl)
+    return _first_repo_frame(p.err or b"") or "?"
